@@ -140,6 +140,19 @@ pub fn check_pair(ma: &MLangId, mb: &MLangId, a: &LanguageIdentifier, b: &Langua
             pviol(coll, l, "c11.language", "Language::matches differs from the formula".into(), &sa, &sb, *fl, lw.to_string(), format!("{} / {}", lg, lg2));
         }
     }
+    // an empty variant list stored as Some([]) (possible through from_raw_parts_unchecked, and
+    // anticipated by the library: "or is some and is empty") is an empty field: on the side
+    // flagged as a range it must behave exactly like the parser's None
+    if ma.variants.is_empty() {
+        let raw = LanguageIdentifier::from_raw_parts_unchecked(a.language, a.script, a.region, Some(Vec::new().into_boxed_slice()));
+        for rb in [false, true] {
+            let (w1, g1) = (a.matches(b, true, rb), raw.matches(b, true, rb));
+            let (w2, g2) = (b.matches(a, rb, true), b.matches(&raw, rb, true));
+            if w1 != g1 || w2 != g2 {
+                pviol(coll, l, "c11.raw_empty", "an empty variant list stored as Some([]) on the range side does not act as an empty field".into(), &sa, &sb, (true, rb), format!("{} / {}", w1, w2), format!("{} / {}", g1, g2));
+            }
+        }
+    }
     // both flags false <=> equality
     if res[0] != (a == b) || res[0] != (ma == mb) {
         pviol(coll, l, "c11.equality", "matches(false,false) differs from ==".into(), &sa, &sb, (false, false), (ma == mb).to_string(), res[0].to_string());
